@@ -415,6 +415,74 @@ def q_dispatch(a):
            "against that element; the traversal continues (next position, that element) exactly for the elements whose status is PASS - "
            "FAIL and SKIP select nothing; every element is visited; an evaluation error is an error of the query")
 
+    # ---- `*` and named `[*]` on a MAP: handed to accumulate_map with the map itself; unnamed `[*]` keeps the map ----------
+    def accmap_ok(ex, h, e):
+        mapv = field(ex, payload(ex, h["cur"], "Map"), 1, "MapValue")
+        return (len(e[2]) == 7 and same(e[2][0], h["cur"]) and same(e[2][1], mapv) and e[2][2][0] == "int" and same(e[2][3], h["query"])
+                and same(e[2][4], ex.arg_env["_4"]) and same(e[2][5], ex.arg_env["_5"]))
+
+    def accmap_args(ex, h, p, e):
+        return f"(= {e[2][2][1]} {h['qi'][1]})" if accmap_ok(ex, h, e) else "false"
+    single_delegate("all-values/map", "AllValues", MAP, "accumulate_map", accmap_args,
+                    "`*` on a map: handed to accumulate_map with the map's own entries, the current position, this query, resolver and converter")
+    ex, h = _directed(a, QP.index("AllIndices"), MAP,
+                      extra_models={"is_none": lambda ex, av: ("bool", f"(= {disc(ex, av[0])} 0)") if av and av[0][0] in ("opaque", "enum") else ex.havoc("bool")})
+    named = f"(not (= {disc(ex, payload(ex, h['part'], 'AllIndices'))} 0))"
+    bad = []
+    for p in ex.paths:
+        r = p.ret
+        recs, am = calls(p, REC), calls(p, "accumulate_map")
+        if p.outcome != "return" or r is None or len(recs) + len(am) != 1:
+            bad.append(f"(and {pc_term(p.pc)} {in_range(ex, h)})")
+            continue
+        if recs:
+            ok, cond = _rec_args_ok(recs[0], h, ex, h["cur"])
+            bad.append(f"(and {pc_term(p.pc)} {in_range(ex, h)} (not (and (not {named}) {cond if (ok and r == recs[0][3]) else 'false'})))")
+        else:
+            cond = accmap_args(ex, h, p, am[0]) if r == am[0][3] else "false"
+            bad.append(f"(and {pc_term(p.pc)} {in_range(ex, h)} (not (and {named} {cond})))")
+    finish("all-indices/map", ex, bad,
+           "`[*]` on a map: without a name the traversal continues at the next position with the map itself; with a name (`[ name | * ]` style "
+           "capture) the map's entries are handed to accumulate_map at the current position")
+
+    # the per-entry continuations passed to accumulate_map: capture the key (when asked to), then continue with the entry's value
+    for cname in ("closure#2", "closure#3"):
+        try:
+            cex = a.exec(QCTX + REC + r"::\{" + cname + r"\}", {REC: m_result_opq, "add_variable_capture_key": mirexec.m_result_unit,
+                                                                  "as_str": mirexec.m_identity, "unwrap": mirexec.m_identity, "as_ref": mirexec.m_identity},
+                         unroll=1, max_paths=400)
+        except Untranslatable:
+            continue
+        idx, qry, key, val, ctx, conv = (cex.arg_env[f"_{i}"] for i in range(2, 8))
+        bad = []
+        for p in cex.paths:
+            r = p.ret
+            cs, caps = calls(p, REC), calls(p, "add_variable_capture_key")
+            if p.outcome != "return" or r is None or r[0] != "enum":
+                bad.append(pc_term(p.pc))
+                continue
+            probs = []
+            for c_ in caps:
+                if not (len(c_[2]) == 3 and same(c_[2][0], ctx) and same(c_[2][2], key)):
+                    probs.append("the captured key is not this entry's key / not recorded in this entry's context")
+            if len(caps) > 1:
+                probs.append("key captured twice")
+            if cs:
+                e = cs[0]
+                if not (len(cs) == 1 and len(e[2]) == 5 and str(e[2][0]) == str(idx) and same(e[2][1], qry) and same(e[2][2], val)
+                        and same(e[2][3], ctx) and same(e[2][4], conv) and r == e[3]):
+                    probs.append("the continuation is not (given position, query, this entry's value, this entry's context, converter)")
+                caperr = "(or false " + " ".join(f"(= {c_[3][2]} 1)" for c_ in caps if c_[3][0] == "enum") + ")"
+                bad.append(pc_term(p.pc) if probs else f"(and {pc_term(p.pc)} {caperr})")
+            else:
+                # no continuation: only because recording the key failed
+                caperr = "(or false " + " ".join(f"(= {c_[3][2]} 1)" for c_ in caps if c_[3][0] == "enum") + ")"
+                bad.append(pc_term(p.pc) if probs else f"(and {pc_term(p.pc)} (not (and (= {r[2]} 1) {caperr})))")
+        _replay(a, a.discharge("query/dispatch/map-entry-continuation/" + cname, cex, bad,
+                               "per-entry continuation of `*` / named `[*]` on a map: the entry's key is captured at most once, in the entry's own "
+                               "context, and the traversal continues with exactly (position given, query, the entry's value, that context, "
+                               "converter), its result returned unchanged; no continuation only if capturing failed", witness=False))
+
 
 def q_accumulate_map(a):
     MV = struct_fields(a.src, "rules/path_value.rs", "MapValue")
@@ -566,7 +634,9 @@ def replay_queries(a):
              ("M.c.v !exists", "PASS"), ("M[ v == 2 ].v == 2", "PASS"), ("M[ v == 9 ].v == 2", "SKIP"), ("L[ x == 2 ].y[0] == 3", "PASS"),
              ("L[ x == 9 ].y exists", "SKIP"), ("L[ x >= 1 ].x == 1", "FAIL"), ("L[ y[ this == 9 ] == 1 ].x == 1", "SKIP"), ("L[ y[ this == 3 ] == 3 ].x == 2", "PASS"),
              ("M[ v[ this == 9 ] == 1 ].v == 1", "SKIP"), ("N[*][*] >= 1", "PASS"), ("N[0][1] == 2", "PASS"),
-             ("N[1][1] !exists", "PASS"), ("s[*] == 5", "PASS"), ("s.x !exists", "PASS"), ("this.s == 5", "PASS"), ("L.*.x >= 1", "PASS")]
+             ("N[1][1] !exists", "PASS"), ("s[*] == 5", "PASS"), ("s.x !exists", "PASS"), ("this.s == 5", "PASS"), ("L.*.x >= 1", "PASS"),
+             ("M[*].a.v == 1", "PASS"), ("M[*].b.v == 2", "PASS"), ("M[*].a.v == 2", "FAIL"), ("M[*].c !exists", "PASS"), ("some M.*.v == 2", "PASS"),
+             ("M.*.v == 2", "FAIL"), ("M.* !empty", "PASS")]
     return a.replay_cases(exe, data, cases)
 
 
